@@ -114,9 +114,21 @@ def gen_test_strict(rng, tier):
     for s in HAND_STRINGS:
         for t in TYPE_NAMES:
             yield {"t": t, "s": s, "freprs": freprs([s])}
-    for _ in range(n_cases(tier, 1500, 40000)):
-        s = random_string(rng)
-        yield {"t": rng.choice(TYPE_NAMES), "s": s, "freprs": freprs([s])}
+    kind_of = {"int": "int", "bool": "bool", "float": "float", "Decimal": "decimal", "XmlTime": "time", "XmlDate": "date",
+               "XmlDateTime": "dateTime", "XmlDuration": "duration", "XmlPeriod": "period"}
+    for i in range(n_cases(tier, 1500, 40000)):
+        t = rng.choice(TYPE_NAMES)
+        if i % 2:
+            s = random_string(rng)
+        else:  # a value of the type's own kind, sometimes padded or damaged: both answers of every test are exercised
+            s = S.canonical_value(rng, kind_of[t], rng.choice([0, 1]))
+            m = rng.random()
+            if m < 0.15:
+                s = rng.choice([" ", "\n", "\t"]) + s + rng.choice(["", " "])
+            elif m < 0.3 and s:
+                k = rng.randrange(len(s))
+                s = s[:k] + rng.choice("0:-TZ.x") + s[k + 1:]
+        yield {"t": t, "s": s, "freprs": freprs([s])}
 
 
 def impl_test_strict(a):
@@ -414,13 +426,8 @@ def gen_xml_docs(rng, tier):
 
 
 def impl_xml_docs(a):
-    from xsdata.codegen.utils import ClassUtils
-
     try:
-        classes = []
-        for t in a["texts"]:
-            classes.extend(map_xml_text(t))
-        return ok([canon_class(c) for c in ClassUtils.reduce_classes(classes)])
+        return ok([canon_class(c) for c in real_transformer(a["texts"], "xml")])
     except Exception as e:  # noqa: BLE001
         return leak(e)
 
@@ -471,7 +478,8 @@ def impl_map_json(a):
 
 
 def gen_json_docs(rng, tier):
-    hand = [[{"a": 1}, {"a": None}], [{"a": "12"}, {"a": "x"}], [{"a": []}, {"a": [1.5]}], [{"a": {"b": 1}}, {"a": {"c": 2}}, {}]]
+    hand = [[{"a": 1}, {"a": None}], [{"a": "12"}, {"a": "x"}], [{"a": []}, {"a": [1.5]}], [{"a": {"b": 1}}, {"a": {"c": 2}}, {}],
+            [[{"a": 1}, {"a": 2, "b": "x"}]], [[], {"a": 1}], [[{"a": 1}, 5]], [5], ["abc"], [""], [None], [[[{"a": 1}]]], [True, {"a": 1}]]
     for docs in hand:
         yield {"docs": [S.enc_json(d) for d in docs], "raw": docs, "name": "doc", "freprs": freprs(s for d in docs for s in S.json_strings(d))}
     for i in range(n_cases(tier, 250, 6000)):
@@ -480,20 +488,34 @@ def gen_json_docs(rng, tier):
         else:
             m = S.gen_json_model(rng, hetero=0.3)
             docs = [S.json_instance(rng, m) for _ in range(rng.randint(1, 4))]
+            if i % 5 == 0:  # a document that is an array of root objects
+                docs = [[d, S.json_instance(rng, m)] if rng.random() < 0.5 else d for d in docs]
         yield {"docs": [S.enc_json(d) for d in docs], "raw": docs, "name": "doc", "freprs": freprs(s for d in docs for s in S.json_strings(d)), "regular": i % 3 != 2}
 
 
-def impl_json_docs(a):
-    from xsdata.codegen.mappers import DictMapper
-    from xsdata.codegen.utils import ClassUtils
+def real_transformer(docs, ext, name="doc"):
+    """the real `ResourceTransformer.process_xml_documents / process_json_documents` on in-memory resources
+    (`preloaded`), up to and including `reduce_classes`"""
+    from xsdata.codegen.transformer import ResourceTransformer
+    from xsdata.models.config import GeneratorConfig
 
+    cfg = GeneratorConfig()
+    cfg.output.package = "pkg." + name
+    t = ResourceTransformer(config=cfg)
+    uris = []
+    for i, d in enumerate(docs):
+        uri = f"mem://c13/s{i}.{ext}"
+        t.preloaded[uri] = (d if ext == "xml" else json.dumps(d)).encode("utf-8")
+        uris.append(uri)
+    (t.process_xml_documents if ext == "xml" else t.process_json_documents)(uris)
+    return t.classes
+
+
+def impl_json_docs(a):
     try:
-        classes = []
-        for d in json.loads(json.dumps(a["raw"])):
-            classes.extend(DictMapper.map(d, a["name"], "loc"))
-        return ok([canon_class(c) for c in ClassUtils.reduce_classes(classes)])
+        return ok([canon_class(c) for c in real_transformer(a["raw"], "json", a["name"])])
     except Exception as e:  # noqa: BLE001
-        return leak(e)
+        return err(type(e).__name__)
 
 
 # ------------------------------------------------------------------ smp.reduce
@@ -650,7 +672,7 @@ def oracle_json(a):
             try:
                 with warnings.catch_warnings():
                     warnings.simplefilter("error")
-                    obj = parser.from_string(json.dumps(d), roots[0])
+                    obj = parser.from_string(json.dumps(d), list[roots[0]] if isinstance(d, list) else roots[0])
             except Exception as e:  # noqa: BLE001
                 return f"sample {i} rejected: {type(e).__name__}: {str(e)[:200]}"
             cv = constraint_violation(obj)
@@ -953,7 +975,9 @@ def json_sites(docs, name="doc"):
                     walk(x, k)
 
     for d in docs:
-        walk(d, name)
+        for item in (d if isinstance(d, list) else [d]):
+            if isinstance(item, dict):
+                walk(item, name)
     return out
 
 
@@ -1061,7 +1085,9 @@ def e2e_json_args(docs):
 
 def clean_json_docs(rng, hetero=0.0):
     m = S.gen_json_model(rng, hetero=hetero)
-    return [S.json_instance(rng, m, null_arrays=hetero > 0) for _ in range(rng.randint(1, 4))]
+    docs = [S.json_instance(rng, m, null_arrays=hetero > 0) for _ in range(rng.randint(1, 4))]
+    # a sample document may also be an array of root objects (process_json_documents maps every item)
+    return [[d] + [S.json_instance(rng, m, null_arrays=hetero > 0) for _ in range(rng.randint(0, 2))] if rng.random() < 0.15 else d for d in docs]
 
 
 def gen_e2e_json(rng, tier):
@@ -1153,8 +1179,10 @@ def classify_e2e(a, o):
 CORRS = [
     Corr("smp.test_strict", gen_test_strict, impl_test_strict, classify=lambda a, o: f"{a['t']}:{o.get('ok')}", describe="converter.test(s,[tp],strict=True) per explicit type (float/Decimal abstract)"),
     Corr("smp.infer", gen_infer, impl_infer, classify=classify_infer, describe="RawDocumentMapper.build_attr_type on strings, JSON literals, xsi:type"),
-    Corr("smp.components", gen_components, impl_components, describe="collections.connected_components"),
-    Corr("smp.find_component", gen_find_component, impl_find_component, describe="collections.find_connected_component"),
+    Corr("smp.components", gen_components, impl_components, classify=lambda a, o: f"{len(a['lists'])} lists -> {len(o.get('ok', []))} components" if len(a["lists"]) < 4 else f"4+ lists -> {min(len(o.get('ok', [])), 3)}{'+' if len(o.get('ok', [])) > 3 else ''} components",
+         describe="collections.connected_components"),
+    Corr("smp.find_component", gen_find_component, impl_find_component, classify=lambda a, o: "absent" if o.get("ok") == -1 else "found",
+         describe="collections.find_connected_component"),
     Corr("smp.order_respected", gen_order_respected, impl_order_respected, classify=lambda a, o: str(o.get("ok")),
          describe="is the order ClassUtils.sorted_attrs derives a linear extension of every occurrence's order: real code, the Python replica behind "
                   "the region of C13-field-order-greedy-merge, and the model's `orderRespected` (hypothesis of field_order_respected_partial) agree"),
